@@ -38,6 +38,13 @@ def run(ctx):
         for n in (50, 200, 800, 2000):
             for _ in range(12 if ctx.tier == 'quick' else 100):
                 addtext(''.join(rnd.choice(alphabet) for _ in range(n)))
+        # number spellings that denote no ordinary number (`010_nan` is radix 10 with the digits "nan" and parses as a float NaN,
+        # which is equal to nothing, not even to itself), repeated: constants that can never be found again in a cache
+        for lit in ('010_nan', '010_NaN', '010_inf', '010_infinity', '010_1e999', '1e999', '010_-nan', '02_nan', '036_nan'):
+            for k in (1, 2, 3, 4, 6):
+                for sep in (' ', ', ', ' + ', ' == '):
+                    textcases.append(['DUMP', 't%d' % len(textcases), 'simple', vlib.esc(sep.join([lit] * k))])
+                    textcases.append(['DUMP', 't%d' % len(textcases), 'basic', vlib.esc(sep.join([lit] * k))])
         # long inputs of regular shape for the growth fit
         for n in (200, 400, 800, 1600, 3200):
             addtext(' + '.join(['1'] * n)); addtext('(' * n + '1' + ')' * n); addtext(', '.join(['a b'] * n)); addtext('1 ?> 2 |> ' * (n // 4) + '3')
